@@ -11,9 +11,12 @@ Translated:
                          Legacy     the machine thread copies the state out of a temporary guard
                                     (`*thread_state.lock().unwrap()`), locks again at a breakpoint, and `pause` reads the
                                     program counter first and then calls update_state
+  * adapter_reset_lcp  whether the machine thread clears last_checked_pc after execute_instruction (`Ok(result) => {
+                       last_checked_pc = None; ...`)
   * gen_event_of       the arms of `match (old, new)` in DebugSession::handle_machine_event (mos/src/debugger/mod.rs)
                        plus the Message / Disconnected arms, in source order
-Checked for shape (ShapeError = broken tie): order of the regions in the machine thread (state read, runner.read block with
+Checked for shape (ShapeError = broken tie): TestRunner::step_over (run to pc+3) and step_out (count nested calls until the
+subroutine's own rts) of mos/src/test_runner/mod.rs, which model/DapStep.v mirrors; order of the regions in the machine thread (state read, runner.read block with
 last_checked_pc / breakpoints / publish, runner.write block with execute_instruction), step_in / next / step_out =
 runner.write block followed by self.pause(), update_state = lock + assign + send, start() assigns Running without an event,
 resume() = update_state(Running), set_breakpoints assigns under the breakpoints lock, registers() reads under runner.read.
@@ -22,6 +25,7 @@ import re
 from tcommon import read, strip_comments, write_if_changed, ShapeError, balanced_block
 
 ADAPTER = "mos/src/debugger/adapters/test_runner/mod.rs"
+RUNNER = "mos/src/test_runner/mod.rs"
 DEBUGGER = "mos/src/debugger/mod.rs"
 
 
@@ -64,6 +68,9 @@ def machine_thread(src):
                  r"RunningStateChanged \{ old, new \}", r"continue;", r"thread_runner\.write\(\)",
                  r"runner\.execute_instruction\(\)", r"ExecuteResult::Running => \{\}", r"MachineEvent::Disconnected",
                  r"thread_is_connected\.store\(false"], "machine thread")
+    reset = bool(re.search(r"Ok\(result\) => \{\s*last_checked_pc = None;", body))
+    if len(re.findall(r"last_checked_pc = ", body)) != (3 if reset else 2):
+        raise ShapeError("machine thread: unexpected assignments to last_checked_pc")
     nlocks = len(re.findall(r"thread_state\.lock\(\)", body))
     held = re.search(r"let mut (\w+) = thread_state\.lock\(\)\.unwrap\(\);\s*let (\w+) = \*\1;\s*match \2 \{", body)
     copied = re.search(r"let (\w+) = \*thread_state\.lock\(\)\.unwrap\(\);\s*match \1 \{", body)
@@ -76,10 +83,10 @@ def machine_thread(src):
         order(idle, [r"drop\(%s\);" % g, r"thread::sleep\("], "machine thread: idle arm drops the guard before sleeping")
         if not re.search(r"let old = \*%s;" % g, running):
             raise ShapeError("machine thread: breakpoint arm does not publish through the held guard")
-        return "StateHeld"
+        return "StateHeld", reset
     if copied and nlocks == 2:
         order(running, [r"let mut state = thread_state\.lock\(\)\.unwrap\(\);", r"let old = \*state;"], "machine thread (legacy)")
-        return "Legacy"
+        return "Legacy", reset
     raise ShapeError("machine thread: unrecognised use of the run-state lock (%d lock sites)" % nlocks)
 
 
@@ -116,6 +123,22 @@ def other_fns(src):
         raise ShapeError("set_breakpoints(): unrecognised body")
     if not squash(fn_body(src, "registers")).startswith("let runner = self.runner.read().unwrap();"):
         raise ShapeError("registers(): unrecognised body")
+
+
+def runner_steps(src):
+    """TestRunner::step_over / step_out have the shape model/DapStep.v mirrors"""
+    so = squash(fn_body(src, "step_over"))
+    if so != ("let opcode = self.ram.read().unwrap().ram[self.cpu.get_program_counter() as usize]; match opcode { 0x20 => { "
+              "let wait_until_pc = self.cpu.get_program_counter() + 3; loop { let result = self.execute_instruction()?; "
+              "if self.cpu.get_program_counter() == wait_until_pc { return Ok(result); } match result { ExecuteResult::Running => {} "
+              "result => { return Ok(result); } } } } _ => self.execute_instruction(), }"):
+        raise ShapeError("TestRunner::step_over: unrecognised body: " + so[:200])
+    out = squash(fn_body(src, "step_out"))
+    if out != ("if self.cpu.get_stack_pointer() > 253 { return Ok(ExecuteResult::Running); } let mut nested_calls = 0; loop { "
+               "let opcode = self.ram.read().unwrap().ram[self.cpu.get_program_counter() as usize]; match self.execute_instruction()? { "
+               "ExecuteResult::Running => {} result => { return Ok(result); } } match opcode { 0x20 => nested_calls += 1, "
+               "0x60 if nested_calls == 0 => return Ok(ExecuteResult::Running), 0x60 => nested_calls -= 1, _ => {} } }"):
+        raise ShapeError("TestRunner::step_out: unrecognised body: " + out[:200])
 
 
 STATE = {"Launching": "Launching", "Running": "Running", "Stopped(_)": "(Stopped _)", "_": "_"}
@@ -174,21 +197,23 @@ def event_table(src):
 
 def translate():
     src = strip_hooks(strip_comments(read(ADAPTER)))
-    p1 = machine_thread(src)
+    p1, reset = machine_thread(src)
     p2 = pause_fn(src)
     other_fns(src)
     if p1 != p2:
         raise ShapeError("machine thread follows the %s protocol but pause() the %s protocol: no model for this mixture" % (p1, p2))
+    runner_steps(strip_hooks(strip_comments(read(RUNNER))))
     arms = event_table(strip_comments(read(DEBUGGER)))
     out = ["(* generated by translate/t_dap.py from %s and %s -- do not edit *)" % (ADAPTER, DEBUGGER),
            "From Mos Require Import model.Dap.", "",
            "Definition adapter_protocol : protocol := %s." % p1, "",
+           "Definition adapter_reset_lcp : bool := %s." % ("true" if reset else "false"), "",
            "Definition gen_event_of (e : mevent) : option (option dapevent) :=", "  match e with"]
     for pat, res in arms:
         out.append("  | %s => %s" % (pat, res))
     out += ["  end.", ""]
     fp = write_if_changed("DapShape.v", "\n".join(out))
-    return {"file": "Gen/DapShape.v", "protocol": p1, "event_arms": len(arms), "fingerprint": fp}
+    return {"file": "Gen/DapShape.v", "protocol": p1, "reset_lcp": reset, "event_arms": len(arms), "fingerprint": fp}
 
 
 if __name__ == "__main__":
